@@ -3,6 +3,8 @@ package main
 import (
 	"fmt"
 	"strings"
+
+	"golang.org/x/tools/go/ssa"
 )
 
 var c10ErrExceptions = []ErrException{
@@ -64,4 +66,113 @@ func runC10(c *Ctx) {
 		)
 		c.RequireAtSuccess("C10.O2a", res, "walDir.Sync", []string{"ok:walDir.Sync"})
 	}
+
+	// C10.O2b: failover: logCreator ⊢ dir.Sync ⊢ NewLogWriter in the async creation closure
+	if outer := c.Fn("C10.O2b", "wal.(*failoverWriter).switchToNewDir"); outer != nil {
+		if clo := c.ClosureWith("C10.O2b", outer, CallTo("rec.NewLogWriter")); clo != nil {
+			c.Chain("C10.O2b", clo, nil,
+				Step{Name: "logCreator", M: DynCall("opts.logCreator"), Gated: true},
+				Step{Name: "dir.Sync", M: MethodOn("Sync", "dir"), Gated: true},
+				Step{Name: "NewLogWriter", M: CallTo("rec.NewLogWriter")},
+			)
+		}
+	}
+	provSync := ImplCall(c.Iface("C10.O3", "objs.Provider"), "objstorage.Provider", "Sync")
+	// C10.O3a: compactAndWrite: every return whose result may carry Err == nil passed objProvider.Sync
+	if fn := c.Fn("C10.O3a", "p.(*DB).compactAndWrite"); fn != nil {
+		fl := NewFlow(c.P).
+			After("synced|failed", provSync).
+			Edge("synced|failed", NonZeroGuard("result.Err")).
+			After("synced|failed", CallTo("compact.(Result).WithError", "compact.(*Result).WithError"))
+		res := fl.Analyze(fn, emptyState())
+		c.noteFlow(fl)
+		n := len(instrs(fn, provSync))
+		c.Ob("C10.O3a", fn, "step objProvider.Sync present", c.P.Pos(fn.Pos()), n > 0, "compactAndWrite no longer syncs the object provider")
+		c.Require("C10.O3a", res, Pred("return of a possibly successful compact.Result", func(in ssa.Instruction) bool {
+			ret, ok := in.(*ssa.Return)
+			if !ok || ret.Block() == ret.Parent().Recover || len(ret.Results) != 1 {
+				return false
+			}
+			// returns of a literal Result{Err: err} on an error path are excluded by construction below
+			return !resultLiteralWithErr(ret.Results[0])
+		}), "outputs are synced before a successful result is returned", []string{"synced|failed"})
+		// the sync's error becomes the result's error
+		for _, in := range instrs(fn, provSync) {
+			call := in.(*ssa.Call)
+			stored := false
+			if call.Referrers() != nil {
+				for _, r := range *call.Referrers() {
+					if st, ok := r.(*ssa.Store); ok && pathHasSuffix(pathOf(st.Addr), "result.Err") {
+						stored = true
+					}
+				}
+			}
+			c.Ob("C10.O3a", fn, "sync error is recorded in result.Err", c.P.Pos(in.Pos()), stored, "")
+		}
+	}
+	// C10.O3b: runCopyCompaction
+	if fn := c.Fn("C10.O3b", "p.(*DB).runCopyCompaction"); fn != nil {
+		fl := NewFlow(c.P).Edge("empty-span", ErrorsIsGuard("ErrEmptySpan"))
+		res := c.Chain("C10.O3b", fn, fl,
+			Step{Name: "create|link", M: Or(ImplCall(c.Iface("C10.O3b", "objs.Provider"), "objstorage.Provider", "Create", "LinkOrCopyFromLocal")), Gated: true, Free: true},
+			Step{Name: "objProvider.Sync", M: provSync, Gated: true, Need: []string{"ok:create|link"}},
+		)
+		c.RequireAtSuccess("C10.O3b", res, "objProvider.Sync (or nothing was created: empty span)", []string{"ok:objProvider.Sync"}, "empty-span")
+	}
+	// C10.O3c: ingest: link ⊢ attach ⊢ Sync ⊢ AllocateSeqNum
+	if fn := c.Fn("C10.O3c", "p.(*DB).ingest"); fn != nil {
+		c.Chain("C10.O3c", fn, nil,
+			Step{Name: "ingestLinkLocal", M: CallTo("p.ingestLinkLocal"), Gated: true},
+			Step{Name: "ingestAttachRemote", M: CallTo("p.(*DB).ingestAttachRemote"), Gated: true},
+			Step{Name: "objProvider.Sync", M: provSync, Gated: true},
+			Step{Name: "commit.AllocateSeqNum", M: CallTo("p.(*commitPipeline).AllocateSeqNum")},
+		)
+	}
+	// C10.O3d: blob file rewrite
+	if fn := c.Fn("C10.O3d", "p.(*DB).runBlobFileRewriteLocked"); fn != nil {
+		res := c.Chain("C10.O3d", fn, nil,
+			Step{Name: "Rewrite", M: CallTo("p.(*blobFileRewriter).Rewrite"), Gated: true},
+			Step{Name: "objProvider.Sync", M: provSync, Gated: true},
+		)
+		c.RequireAtSuccess("C10.O3d", res, "Rewrite + objProvider.Sync", []string{"ok:Rewrite", "ok:objProvider.Sync"})
+	}
+	// C10.O3e: local writable: Flush ⊢ Sync ≺ Close, success implies both
+	if fn := c.Fn("C10.O3e", "osp.(*fileBufferedWritable).Finish"); fn != nil {
+		res := c.Chain("C10.O3e", fn, nil,
+			Step{Name: "bw.Flush", M: MethodOn("Flush", "w.bw"), Gated: true},
+			Step{Name: "file.Sync", M: MethodOn("Sync", "w.file"), Gated: true},
+		)
+		fl := NewFlow(c.P).After("did:sync|flushfailed", MethodOn("Sync", "w.file")).Ok("ok:flush", MethodOn("Flush", "w.bw")).Ok("ok:sync", MethodOn("Sync", "w.file"))
+		res = fl.Analyze(fn, emptyState())
+		c.RequireAtSuccess("C10.O3e", res, "Flush + Sync", []string{"ok:flush", "ok:sync"})
+	}
+	runC10Open(c)
+	runC10V1(c)
+}
+
+// resultLiteralWithErr: the returned value is a freshly built compact.Result
+// whose Err field was set from an error value (an explicit failure result).
+func resultLiteralWithErr(v ssa.Value) bool {
+	switch x := v.(type) {
+	case *ssa.UnOp:
+		if a, ok := x.X.(*ssa.Alloc); ok && a.Comment != "complit" {
+			// named result cell: look at what was just stored into it
+			if st := precedingStore(x); st != nil && st.Val != v {
+				return resultLiteralWithErr(st.Val)
+			}
+			return false
+		}
+		if a, ok := x.X.(*ssa.Alloc); ok && a.Comment == "complit" {
+			if a.Referrers() != nil {
+				for _, r := range *a.Referrers() {
+					if fa, ok := r.(*ssa.FieldAddr); ok {
+						if f := fieldVar(fa.X.Type(), fa.Field); f != nil && f.Name() == "Err" {
+							return true
+						}
+					}
+				}
+			}
+		}
+	}
+	return false
 }
